@@ -986,6 +986,20 @@ class CfgTranslator(tf.FuncTranslator):
         return tf.FuncTranslator.truthy_of(self, lean, t, node)
 
     # -- conditions ---------------------------------------------------------------------------------
+    def static_truth(self, test, env):
+        """True / False when the static type of a project-directory variable decides the test, else None:
+        `isinstance(p, pl.Path)` is True, `p is None` is False, `p is not None` is True"""
+        if (isinstance(test, ast.Call) and isinstance(test.func, ast.Name) and test.func.id == "isinstance"
+                and len(test.args) == 2 and ast.unparse(test.args[1]) in ("pl.Path", "pathlib.Path")
+                and isinstance(test.args[0], ast.Name) and test.args[0].id in env
+                and env[test.args[0].id].type == PROJDIR):
+            return True
+        if (isinstance(test, ast.Compare) and len(test.ops) == 1 and isinstance(test.ops[0], (ast.Is, ast.IsNot))
+                and isinstance(test.comparators[0], ast.Constant) and test.comparators[0].value is None
+                and isinstance(test.left, ast.Name) and test.left.id in env and env[test.left.id].type == PROJDIR):
+            return isinstance(test.ops[0], ast.IsNot)
+        return None
+
     def isinstance_atom(self, node, env):
         if isinstance(node, ast.Call) and ast.unparse(node.func) == "isinstance" and len(node.args) == 2 \
                 and ast.unparse(node.args[1]) in ("pl.Path", "pathlib.Path"):
@@ -1014,12 +1028,11 @@ class CfgTranslator(tf.FuncTranslator):
             if isinstance(test.op, ast.And):
                 return self.cond(first, env, lambda e: self.cond(more, e, tk, ek, top=False), ek, top=False)
             return self.cond(first, env, tk, lambda e: self.cond(more, e, tk, ek, top=False), top=False)
-        if (isinstance(test, ast.Call) and isinstance(test.func, ast.Name) and test.func.id == "isinstance"
-                and len(test.args) == 2 and ast.unparse(test.args[1]) in ("pl.Path", "pathlib.Path")
-                and isinstance(test.args[0], ast.Name) and test.args[0].id in env
-                and env[test.args[0].id].type == PROJDIR and not as_bool):
+        if not as_bool:
             # decided by the signature table (the parameter IS a Path): the other branch is not translated
-            return tk(env)
+            st_ = self.static_truth(test, env)
+            if st_ is not None:
+                return tk(env) if st_ else ek(env)
         if not as_bool:
             name = self.isinstance_atom(test, env)
             if name is not None:
